@@ -103,6 +103,19 @@ CHECKS = {
         design_ref="DESIGN.md section 3 C31, section 8",
         technique="who-may-call scan; iterator data-flow classification; forward must-analysis; comparator closure shape",
     ),
+    "C36": dict(
+        category="proof",
+        text="Decides the encoding tables at the external boundaries: the four svLogicVecVal conversions (encode/decode x U64/BigUint) "
+             "are evaluated as per-bit boolean functions over their MIR dataflow and must equal IEEE 1800 Annex H through veryl's "
+             "(payload, mask_xz) encoding (aval = payload ^ mask_xz, bval = mask_xz and the inverse), with the word order fixed "
+             "(low word first out, reverse + shift-left in); Value::to_vcd_value's decision tree maps (mask,payload) to Z/X/1/0; "
+             "to_fst_bits maps V0/V1/X/Z to '0'/'1'/'x'/'z' MSB first; VcdValueIter yields bit width-pos-1; cosim_get/cosim_set use "
+             "the converters and copy aval->aval, bval->bval; dump_all_vars reads and reports each variable through its own "
+             "ptr/bytes/width/handle; dump_variables settles dirty combinational logic first. Finite exact obligations. It does "
+             "not decide round-trip equality for every width as arithmetic, nor that dumps are taken at the right times.",
+        design_ref="DESIGN.md section 3 C36, section 8.4e",
+        technique="per-bit truth-table abstract interpretation of bitwise MIR dataflow; must-facts decision tree; access-path identity",
+    ),
 }
 
 NA_SEMANTIC = {
